@@ -37,6 +37,7 @@ def main():
         pkgdir = {"forwarder": ".", "forwarder_test": ".", "martian": "internal/martian", "martian_test": "internal/martian"}.get(pkg)
         if pkgdir is None:
             base = pkg[:-5] if pkg.endswith("_test") else pkg
+            cands = []
             for d, _, files in os.walk(wt):
                 if "/.git" in d or "/e2e" in d:
                     continue
@@ -47,10 +48,10 @@ def main():
                         except OSError:
                             continue
                         if re.search(r"^package %s$" % re.escape(base), head, re.M):
-                            pkgdir = os.path.relpath(d, wt)
+                            cands.append(os.path.relpath(d, wt))
                             break
-                if pkgdir:
-                    break
+            if cands:
+                pkgdir = sorted(cands, key=lambda x: (x.count("/"), len(x)))[0]
         if pkgdir is None:
             m = re.search(r"[Cc]opy to:?\s+(\S+)", demo)
             pkgdir = os.path.dirname(m.group(1)) if m and m.group(1).endswith(".go") else (m.group(1).rstrip("/") if m else ".")
